@@ -47,10 +47,10 @@ type c06Run struct {
 	nl    *noteLog[int, int64]
 	model map[int]*c06Ent
 	// expired in the model but not yet notified as EXPIRED: still occupies the policy
-	trace   []string
-	seq     int64
-	bad     bool
-	loads   int
+	trace    []string
+	seq      int64
+	bad      bool
+	loads    int
 	nextLoad struct {
 		cost int64
 		ttl  time.Duration
@@ -491,7 +491,6 @@ func firstN(s []string, n int) []string {
 	return s
 }
 
-
 // c06ExpiryVsSet: a SetWithTTL on a key whose old value has expired but is not reclaimed yet,
 // racing the timer wheel's expiry of that entry. The order is forced with a held shard read
 // lock (a Range callback parked on a neighbour key of the same shard): the Set queues for
@@ -600,7 +599,6 @@ func c06ExpiryVsSet(r *Run, variant int) {
 	}
 }
 
-
 // c06ReorderedCostDeltas: two Sets of one key with very different costs, each parked at hook H1
 // after its map phase (the shard map already holds the result), their events released in the
 // REVERSE order - what happens when the first caller is descheduled between its map update and
@@ -609,8 +607,8 @@ func c06ExpiryVsSet(r *Run, variant int) {
 func c06ReorderedCostDeltas(r *Run, variant int) {
 	rng := r.Rng(int64(6600 + variant))
 	M := int64([]int{100, 200, 1000}[variant%3])
-	others := int(M) / 4 + rng.Intn(int(M)/8)      // resident unit-cost keys
-	big := M/2 + rng.Int63n(M/4)                   // others + big <= M
+	others := int(M)/4 + rng.Intn(int(M)/8) // resident unit-cost keys
+	big := M/2 + rng.Int63n(M/4)            // others + big <= M
 	nl := &noteLog[int, int64]{}
 	c, err := theine.NewBuilder[int, int64](M).RemovalListener(nl.listener()).Build()
 	if err != nil {
@@ -679,8 +677,94 @@ func c06ReorderedCostDeltas(r *Run, variant int) {
 	}
 }
 
+// c06PooledEntries: with the entry pool on, an entry that is reclaimed goes back to the pool and is handed out again
+// for another key. Keys stored with short TTLs expire and are reclaimed (virtual time + tick body); then new keys
+// are stored WITHOUT a TTL: each must be readable at once, must still be readable an hour and a tick later, and
+// must never be reported EXPIRED - whatever entry object it was given carries nothing over from its previous life.
+func c06PooledEntries(r *Run, idx int) {
+	rng := r.Rng(int64(66000 + idx))
+	nl := &noteLog[int, int64]{}
+	a, err := newAnyCache([]string{"plain", "loading"}[idx%2], anyOpts{MaxSize: 5000, Pool: true, Listener: nl.listener()})
+	if err != nil {
+		r.Broken("build: %v", err)
+		return
+	}
+	defer a.store().Close()
+	st := a.store()
+	n := 100 + rng.Intn(300)
+	for k := 0; k < n; k++ {
+		a.set(k, int64(k), int64(1+rng.Intn(3)), time.Duration(2+rng.Intn(6))*time.Second)
+	}
+	a.wait()
+	st.VerifShiftClock(20*time.Second, true)
+	st.VerifTick()
+	a.wait()
+	reclaimed := 0
+	for _, x := range nl.snapshot() {
+		if x.Reason == theine.EXPIRED {
+			reclaimed++
+		}
+	}
+	viol := func(key, what string) {
+		r.Violate(key+"/entry-pool", fmt.Sprintf("pooled-entries round %d (%s cache, entry pool on): %d keys with TTLs of 2-7 s expired and were reclaimed (%d EXPIRED notifications); then %d new keys were stored without TTL: %s", idx, a.kind, n, reclaimed, n, what),
+			map[string]any{"round": idx, "cache": a.kind})
+	}
+	unreadable, first := 0, ""
+	for k := 0; k < n; k++ {
+		nk := 1_000_000 + k
+		v := int64(nk)<<8 | 7
+		if !a.set(nk, v, 1, 0) {
+			continue
+		}
+		if got, ok := st.VerifResident(nk), true; !got && ok {
+			unreadable++
+			if first == "" {
+				first = fmt.Sprintf("key %d is not resident right after Set returned true", nk)
+			}
+			continue
+		}
+		if a.kind == "plain" {
+			if gv, ok, _ := a.get(context.Background(), nk); !ok || gv != v {
+				unreadable++
+				if first == "" {
+					first = fmt.Sprintf("Get(%d) = (%d, %v) right after Set(%d) returned true", nk, gv, ok, v)
+				}
+			}
+		}
+	}
+	if unreadable > 0 {
+		viol("set-true-not-readable/no-ttl", fmt.Sprintf("%d of them were not readable right after their Set returned true (first: %s)", unreadable, first))
+	}
+	a.wait()
+	st.VerifShiftClock(time.Hour, true)
+	st.VerifTick()
+	a.wait()
+	gone := 0
+	for k := 0; k < n; k++ {
+		if !st.VerifResident(1_000_000 + k) {
+			gone++
+		}
+	}
+	expired2 := 0
+	for _, x := range nl.snapshot() {
+		if x.Key >= 1_000_000 && x.Reason == theine.EXPIRED {
+			expired2++
+		}
+	}
+	if unreadable == 0 && (gone > 0 || expired2 > 0) {
+		viol("lost-without-reason/no-ttl-entry-expired", fmt.Sprintf("an hour and a tick later %d of them are gone and %d were reported EXPIRED although none had a TTL and the cache is far from full", gone, expired2))
+	}
+	r.Eval(1)
+	r.Count("pooled_entries_rounds", 1)
+	r.Count("pooled_entries_reclaimed_before_reuse", int64(reclaimed))
+	r.Distinct(fmt.Sprintf("pooled-entries/%s", a.kind))
+}
+
 func runC06(r *Run) {
 	defer func() {
+		for i := 0; i < r.Pick(4, 24); i++ {
+			c06PooledEntries(r, r.Shard*24+i)
+		}
 		for i := 0; i < r.Pick(2, 8); i++ {
 			c06ExpiryVsSet(r, r.Shard*8+i)
 		}
